@@ -147,3 +147,27 @@ fn cell_misc() {
 pub(crate) fn c17_k2_misc() {
     cell_misc()
 }
+
+// ---- C10.K7 — wrapper types inherit the opt-out of what they wrap ---------------------------------------------------------------
+#[cfg(feature = "hot-reloading")]
+mod wrappers {
+    use crate::amv::common::{A, S};
+    use crate::key::Type;
+    use crate::{Compound, OnceInitCell, Storable};
+    use std::sync::Arc;
+
+    #[kani::proof]
+    pub(crate) fn c10_k7_wrappers_inherit_opt_out() {
+        // S opted out of hot-reloading, A did not
+        assert!(!<S as Compound>::HOT_RELOADED && <A as Compound>::HOT_RELOADED);
+        assert!(!<Arc<S> as Compound>::HOT_RELOADED && <Arc<A> as Compound>::HOT_RELOADED, "C10 Arc<T> is reloadable iff T is");
+        assert!(!<OnceInitCell<S, u8> as Compound>::HOT_RELOADED && <OnceInitCell<A, u8> as Compound>::HOT_RELOADED, "C10 OnceInitCell<U, T> is reloadable iff U is");
+        assert!(!<OnceInitCell<Option<S>, u8> as Compound>::HOT_RELOADED && <OnceInitCell<Option<A>, u8> as Compound>::HOT_RELOADED, "C10 OnceInitCell<Option<U>, T> is reloadable iff U is");
+        // the constant that decides static/dynamic storage and registration follows
+        assert!(!<Arc<S> as Storable>::HOT_RELOADED && !<OnceInitCell<Option<S>, u8> as Storable>::HOT_RELOADED && !<OnceInitCell<S, u8> as Storable>::HOT_RELOADED, "C10 a wrapper of an opted-out type is stored static");
+        assert!(!Type::of::<Arc<S>>().is_hot_reloaded() && !Type::of::<OnceInitCell<Option<S>, u8>>().is_hot_reloaded() && !Type::of::<OnceInitCell<S, u8>>().is_hot_reloaded() && !Type::of::<S>().is_hot_reloaded(), "C10 a wrapper of an opted-out type never registers with the reloader");
+        assert!(Type::of::<A>().is_hot_reloaded() && Type::of::<Arc<A>>().is_hot_reloaded());
+        assert!(!Type::of::<crate::amv::common::P>().is_hot_reloaded(), "C10 a Storable-only type is never hot-reloaded");
+        assert!(<crate::Directory<S> as Compound>::HOT_RELOADED && <crate::RecursiveDirectory<S> as Compound>::HOT_RELOADED, "directory listings are reloadable whatever their element type");
+    }
+}
